@@ -300,8 +300,14 @@ def build(call, conc):
     if fn == "roc":
         return qartod.rate_of_change_test, {"inp": X(), "tinp": T(), "threshold": rat(p["thr"], unit)}
     if fn == "flat":
-        return qartod.flat_line_test, {"inp": X(), "tinp": T(), "suspect_threshold": p["st"],
-                                       "fail_threshold": p["ft"], "tolerance": rat(p["tol"], unit)}
+        # thrfrac: durations that are not whole seconds (k = floor(duration / step) does not change: step and the
+        # abstract duration are whole seconds, the added fraction is below one second)
+        fr = c.get("thrfrac", 0)
+        dur = (lambda v: v + fr) if fr else (lambda v: v)
+        if fr and c.get("thrtype") == "np":
+            dur = lambda v: np.float64(v + fr)  # noqa: E731
+        return qartod.flat_line_test, {"inp": X(), "tinp": T(), "suspect_threshold": dur(p["st"]),
+                                       "fail_threshold": dur(p["ft"]), "tolerance": rat(p["tol"], unit)}
     if fn == "att":
         kw = {"inp": X(), "tinp": T(), "suspect_threshold": rat(p["st"], unit),
               "fail_threshold": rat(p["ft"], unit), "check_type": p["kind"]}
